@@ -14,7 +14,10 @@ def b1():
     ents = [(b"blk", Node("blk", 0o660, rdev=0x801, tag="blk"), None), (b"chr", Node("chr", 0o600, rdev=0x501, tag="chr"), None),
             (b"dir", D([(b"inner", F(b"inner file", tag="inner"), None)], tag="dir"), None),
             (b"fifo", Node("fifo", 0o600, tag="fifo"), None), (b"file", F(content_pattern("x", 2 * B + 17), uid=1000, gid=100, tag="file"), None),
-            (b"link", L(b"file", tag="link"), None), (b"sock", Node("sock", 0o755, tag="sock"), None)]
+            (b"link", L(b"file", tag="link"), None),
+            # a file shorter than a block that is stored as a data block of its own (no tail-end packing): its single block word is an on-disk size < block size
+            (b"nofrag", F(b"0123456789", frag=False, tag="nofrag"), None),
+            (b"sock", Node("sock", 0o755, tag="sock"), None)]
     return "b1-all-basic-types", D(ents, tag="root"), {}
 
 
@@ -25,7 +28,9 @@ def b2():
             (b"dir", D([(b"inner", F(b"inner file", ext=True, xattrs=xb, tag="inner"), None)], ext=True, xattrs=xa, tag="dir"), None),
             (b"fifo", Node("fifo", 0o600, ext=True, xattrs=xb, tag="fifo"), None),
             (b"file", F(content_pattern("x", 2 * B + 17), ext=True, xattrs=xa, tag="file"), None),
-            (b"link", L(b"file", ext=True, xattrs=xb, tag="link"), None), (b"sock", Node("sock", 0o755, ext=True, tag="sock"), None)]
+            (b"link", L(b"file", ext=True, xattrs=xb, tag="link"), None),
+            (b"nofrag", F(b"abcdefghijklmnopqrstuvwxyz" * 20, frag=False, ext=True, tag="nofrag"), None),
+            (b"sock", Node("sock", 0o755, ext=True, tag="sock"), None)]
     return "b2-all-extended-xattr-export", D(ents, ext=True, tag="root"), dict(export=True)
 
 
